@@ -33,6 +33,9 @@ type ClashCase struct {
 	// Bad: 1 + index of a contender whose reader delivers other bytes than its
 	// descriptor names (its push must fail and must not cost anybody the name); 0 = none
 	Bad int `json:"bad,omitempty"`
+	// Distinct: the contenders do not clash at all - each has a name of its own in
+	// one new nested directory; pushed at once, every one must be accepted
+	Distinct bool `json:"distinct,omitempty"`
 }
 
 func genClash(t *rapid.T) ClashCase {
@@ -44,6 +47,13 @@ func genClash(t *rapid.T) ClashCase {
 	c.Taken = rapid.Bool().Draw(t, "taken")
 	c.Concurrent = rapid.IntRange(0, 3).Draw(t, "concurrent") != 0
 	c.Slow = rapid.IntRange(0, k-1).Draw(t, "slow")
+	if rapid.IntRange(0, 4).Draw(t, "distinct") == 2 {
+		c.Distinct, c.Concurrent, c.Taken = true, true, false
+		for len(c.Sizes) < 8 {
+			c.Sizes = append(c.Sizes, 12)
+		}
+		return c
+	}
 	if rapid.IntRange(0, 2).Draw(t, "withBad") == 1 {
 		lo := 0
 		if c.Taken {
@@ -71,6 +81,36 @@ func runClash(c ClashCase) (res vt.Result, fail *vt.Fail) {
 		data[i] = append(gen.BlobBytes(300+i, c.Sizes[i]), byte('A'+i)) // distinct even at size 0
 		descs[i] = ocispec.Descriptor{MediaType: "application/octet-stream", Digest: digest.FromBytes(data[i]), Size: int64(len(data[i])),
 			Annotations: map[string]string{ocispec.AnnotationTitle: c.Title}}
+	}
+	if c.Distinct {
+		for i := range descs {
+			descs[i].Annotations = map[string]string{ocispec.AnnotationTitle: fmt.Sprintf("new/nested/dir/%s-%d", c.Title, i)}
+		}
+		var wg sync.WaitGroup
+		derrs := make([]error, k)
+		start := make(chan struct{})
+		for i := range descs {
+			wg.Add(1)
+			go func(i int) {
+				defer wg.Done()
+				<-start
+				derrs[i] = s.Push(ctx, descs[i], bytes.NewReader(data[i]))
+			}(i)
+		}
+		close(start)
+		wg.Wait()
+		res.NonTrivial = true
+		res.Classes = append(res.Classes, "distinct-names-in-one-new-directory-at-once")
+		for i, e := range derrs {
+			if e != nil {
+				return res, vt.Failf("C06/push-result", "%d blobs with names of their own in one new nested directory were pushed at once; push %d (%s) failed: %v", k, i, descs[i].Annotations[ocispec.AnnotationTitle], e)
+			}
+			b, ferr := gen.ReadBack(ctx, s, descs[i])
+			if ferr != nil || !bytes.Equal(b, data[i]) {
+				return res, vt.Failf("C06/fetch-bytes-mismatch", "push %d of %d concurrent pushes under distinct names: Fetch returned %d bytes / %v", i, k, len(b), ferr)
+			}
+		}
+		return res, nil
 	}
 	sent := make([][]byte, k) // what each contender's reader delivers
 	for i := range data {
